@@ -11,3 +11,9 @@ open BV
 #print axioms C02_week53_witness
 #print axioms C02_calinfo_domains
 #print axioms C02_inc1_positive
+#print axioms C02_accepted_in_full
+#print axioms C02_roundtrip_ast
+#print axioms C02_roundtrip_of_date
+#print axioms C02_tagCoh_invariant
+#print axioms C02_readme_patterns_wf
+#print axioms C02_readme_tree_tie
